@@ -286,6 +286,18 @@ pub fn run(args: &Args, rep: &mut Report) {
             Op::Close { h: 2 },
             Op::Remount { how: 1 },
             Op::List { dir: DirRef::Root },
+            // entries whose first cluster goes back to "none": truncate to zero, directory moved up to the root
+            Op::OpenFile { dir: DirRef::Root, path: "third.bin".into(), slot: Some(2) },
+            Op::Truncate { h: 2 },
+            Op::Close { h: 2 },
+            Op::CreateDir { dir: DirRef::Root, path: "a directory/inner".into(), slot: None },
+            Op::Rename { sdir: DirRef::Root, src: "a directory/inner".into(), ddir: DirRef::Root, dst: "inner at top".into() },
+            Op::OpenFile { dir: DirRef::Root, path: "third.bin".into(), slot: Some(2) },
+            Op::Write { h: 2, len: cs + 5 },
+            Op::Close { h: 2 },
+            Op::Remount { how: 0 },
+            Op::OpenFile { dir: DirRef::Root, path: "a directory/second file.bin".into(), slot: Some(1) },
+            Op::Read { h: 1, len: 2 * cs },
         ];
         let mut outcomes = Vec::new();
         let mut src = VecSource::new(scripted);
